@@ -105,7 +105,7 @@ PropsOf(e, pre, post) ==
 
 ---------------------------------------------------------------------------
 (* SQL queries over $_keyspace (C19) and view queries (C12) of one collection *)
-AuxKinds == {"q-all", "q-v", "q-s", "q-null", "view", "viewdesc", "viewlimit", "viewkey", "viewcount", "ddoc",
+AuxKinds == {"q-all", "q-v", "q-s", "q-null", "q-noxa", "view", "viewdesc", "viewlimit", "viewkey", "viewcount", "ddoc",
              "viewxend", "viewiend", "viewfrom", "viewxenddesc", "viewfromdesc"}
 RowOf(r) == [id |-> r.id, body |-> B(r.body), xa |-> XaOf(r.xa), vals |-> r.vals]
 RowsOf(s) == IF Len(s) = 0 THEN <<>> ELSE [i \in 1..Len(s) |-> RowOf(s[i])]
@@ -142,10 +142,12 @@ ExpectedAuxV(kind, ds, variant) ==
                          IF ks = <<>> THEN <<>> ELSE [i \in 1..Len(ks) |-> IdRow(ks[i])]
       [] kind = "q-s" -> LET ks == KeySeq({k \in Keys : HasBody(ds[k]) /\ ds[k].xa["_s"].t = "x1"}) IN
                          IF ks = <<>> THEN <<>> ELSE [i \in 1..Len(ks) |-> IdRow(ks[i])]
+      [] kind = "q-noxa" -> LET ks == KeySeq({k \in Keys : HasBody(ds[k]) /\ ~HasXattrs(ds[k])}) IN
+                            IF ks = <<>> THEN <<>> ELSE [i \in 1..Len(ks) |-> IdRow(ks[i])]
       [] kind = "q-null" -> LET ks == KeySeq({k \in Keys : HasBody(ds[k])}) IN
                             IF ks = <<>> THEN <<>>
                             ELSE [i \in 1..Len(ks) |-> [id |-> ks[i], body |-> NoBody, xa |-> NoXa, vals |-> <<ds[ks[i]].xa["_s"].t>>]]
-      [] kind \in {"view", "viewfresh", "viewlate"} -> ViewSeq(ds)
+      [] kind \in {"view", "viewfresh", "viewlate", "viewpost"} -> ViewSeq(ds)
       \* ranges with one end exactly on the emitted key [tag, "J1", null]
       [] kind = "viewxend" -> SelSeq(ViewSeq(ds), LAMBDA r : CmpPivot(r) < 0)
       [] kind = "viewiend" -> SelSeq(ViewSeq(ds), LAMBDA r : CmpPivot(r) <= 0)
@@ -155,7 +157,7 @@ ExpectedAuxV(kind, ds, variant) ==
       [] kind = "viewdesc" -> Rev(ViewSeq(ds))
       [] kind = "viewlimit" -> IF ViewSeq(ds) = <<>> THEN <<>> ELSE <<ViewSeq(ds)[1]>>
       [] kind = "viewkey" -> SelSeq(ViewSeq(ds), LAMBDA r : r.vals[1] = "J1" /\ r.vals[2] = "-")
-      [] kind = "ddoc" -> <<[id |-> "vd", body |-> NoBody, xa |-> NoXa, vals |-> <<variant, variant, "2">>]>>   \* GetDDoc, GetDDocs ("vd" and "ld")
+      [] kind = "ddoc" -> <<[id |-> "vd", body |-> NoBody, xa |-> NoXa, vals |-> <<variant, variant, "3">>]>>   \* GetDDoc, GetDDocs ("vd", "ld" and "pd")
       [] OTHER -> <<>>
 BriefRows(s) == [i \in 1..Len(s) |-> <<s[i].id, BB(s[i].body), s[i].vals, [x \in XNames |-> s[i].xa[x].t]>>]
 CountOKV(rows, ds, variant) ==
@@ -387,13 +389,13 @@ Call(e) ==
             IF ~auxOn /\ \A kd \in AuxKinds : auxs[c][kd] = <<>> THEN 0
             ELSE IF \E k2 \in Keys : BadJson(newDocs[c][k2]) THEN 0
             ELSE Cardinality({kd \in AuxKinds \ {"viewcount"} : na[c][kd] # ExpectedAux(kd, newDocs[c])
-                    /\ Fail(IF kd \in {"q-all", "q-v", "q-s", "q-null"} THEN {"C19"} ELSE {"C12"}, e, <<"aux", kd, c>>,
+                    /\ Fail(IF kd \in {"q-all", "q-v", "q-s", "q-null", "q-noxa"} THEN {"C19"} ELSE {"C12"}, e, <<"aux", kd, c>>,
                             BriefRows(ExpectedAux(kd, newDocs[c])), BriefRows(na[c][kd]))})
                  + F(CountOK(na[c]["viewcount"], newDocs[c]), {"C12"}, <<"aux", "viewcount", c>>, Len(ViewSeq(newDocs[c])), BriefRows(na[c]["viewcount"]))
-        \* a freshly built view, and a view that is queried only every few steps (its index catches up over several
-        \* writes at once): the same rows
+        \* the views queried after the feed flush (whose markers are writes to every collection): one queried after every
+        \* step, one only every few steps (its index catches up over several writes at once), a freshly built one: the same rows
         fFresh2 ==
-            Cardinality({i \in 1..Len(e.aux) : e.aux[i].kind \in {"viewfresh", "viewlate"}
+            Cardinality({i \in 1..Len(e.aux) : e.aux[i].kind \in {"viewfresh", "viewlate", "viewpost"}
                 /\ ~(\E k2 \in Keys : BadJson(newDocs[e.aux[i].c][k2]))
                 /\ (e.aux[i].err # "" \/ RowsOf(e.aux[i].rows) # ExpectedAuxV(e.aux[i].kind, newDocs[e.aux[i].c], "A"))
                 /\ Fail({"C12"}, e, <<"aux", e.aux[i].kind, e.aux[i].c>>, BriefRows(ExpectedAuxV(e.aux[i].kind, newDocs[e.aux[i].c], "A")),
